@@ -57,6 +57,7 @@ static void build_entries(void)
 /* call the entry once on private objects with small valid arguments; returns a hash of the API-visible outputs.
  * With entrycall_trace set, the trap flag is on exactly while the entry under test executes. */
 static int entrycall_trace;
+static uint32_t entrycall_taglen = 16, entrycall_aadlen = 20;   /* varied by the tracer so that the tag-length and AAD-length branches are executed too */
 #define L(stmt) do { if (entrycall_trace) __asm__ volatile("pushfq\n\torq $0x100,(%%rsp)\n\tpopfq" ::: "memory", "cc"); stmt; if (entrycall_trace) __asm__ volatile("pushfq\n\tandq $~0x100,(%%rsp)\n\tpopfq" ::: "memory", "cc"); } while (0)
 static uint64_t call_entry(const sentry_t *s, priv_t *p, uint64_t seed)
 {
@@ -86,12 +87,12 @@ static uint64_t call_entry(const sentry_t *s, priv_t *p, uint64_t seed)
                 /* key data and context are opaque and family specific: only ciphertext and tag are compared */
                 memcpy(p->kd, a.enc, (size_t) 16 * (a.nr + 1));
                 if (s->kind == 14) L(((gcm_precomp_f) s->entry)(p->kd)); else gcm_entries.precomp[s->a](p->kd);
-                if (s->kind == 10) { L(((gcm_one_f) s->entry)(p->kd, &p->gctx, p->out, p->in, len, p->iv, p->aad, 20, p->tag, 16)); ACC(p->out, len); ACC(p->tag, 16); break; }
-                if (s->kind == 11) L(((gcm_init_f) s->entry)(p->kd, &p->gctx, p->iv, p->aad, 20)); else gcm_entries.init[s->a](p->kd, &p->gctx, p->iv, p->aad, 20);
+                if (s->kind == 10) { L(((gcm_one_f) s->entry)(p->kd, &p->gctx, p->out, p->in, len, p->iv, p->aad, entrycall_aadlen, p->tag, entrycall_taglen)); ACC(p->out, len); ACC(p->tag, entrycall_taglen); break; }
+                if (s->kind == 11) L(((gcm_init_f) s->entry)(p->kd, &p->gctx, p->iv, p->aad, entrycall_aadlen)); else gcm_entries.init[s->a](p->kd, &p->gctx, p->iv, p->aad, 20);
                 uint32_t ul = entrycall_len >= 0 ? len : 128;
                 if (s->kind == 12) L(((gcm_upd_f) s->entry)(p->kd, &p->gctx, p->out, p->in, ul)); else gcm_entries.upd[s->a][s->kind == 13 ? s->b : 0][0](p->kd, &p->gctx, p->out, p->in, ul);
                 ACC(p->out, ul);
-                if (s->kind == 13) L(((gcm_fin_f) s->entry)(p->kd, &p->gctx, p->tag, 16)); else gcm_entries.fin[s->a][s->kind == 12 ? s->b : 0](p->kd, &p->gctx, p->tag, 16);
+                if (s->kind == 13) L(((gcm_fin_f) s->entry)(p->kd, &p->gctx, p->tag, entrycall_taglen)); else gcm_entries.fin[s->a][s->kind == 12 ? s->b : 0](p->kd, &p->gctx, p->tag, 16);
                 ACC(p->tag, 16);
                 break; }
         case 20: { ref_aes_t a2; ref_aes_expand(&a2, p->key + 32, ks_bits2[s->a]);
